@@ -10,6 +10,10 @@ every k in 1..N, the same call is repeated on a FRESH manager with the fault at 
   deadline-object  the Deadline object observed at the k-th observation is expired from
                    then on, other Deadline objects (the next query's) are untouched
   check            the k-th call of z3.Optimize.check returns z3.unknown (only that call)
+  clock            (settings with a total budget) the clock read by preprocess_belief_base /
+                   single_inference (inference.inference.perf_counter_ns) jumps by total+5 s (k=1),
+                   total (k=2), total-1 ms (k=3) per reading: preprocessing appears to have used
+                   up the total budget, so the derived per-query budget is negative / zero / 1 ms
 
 and is followed by a fault-free call without budgets on the SAME manager.  Reference =
 the rows of a run without budgets and without faults on a fresh manager.
@@ -47,7 +51,8 @@ BUDGETS = {
     "all": dict(total_timeout=BIG, preprocessing_timeout=BIG // 3, inference_timeout=BIG // 4),
     "none": dict(),  # every budget 0 = no budget; only the optimizer can give up
 }
-KINDS = ("deadline", "deadline-object", "check")
+KINDS = ("deadline", "deadline-object", "check", "clock")
+CLOCK_DELTAS = (5.0, 0.0, -0.001)
 
 BIRDS_SIG = ["b", "p", "f", "w"]
 BIRDS = {1: ("f", "b"), 2: ("!f", "p"), 3: ("b", "p"), 4: ("w", "b")}
@@ -70,9 +75,12 @@ class _Injector:
         self.checks = 0
         self.fired = 0
         self.dead = set()
+        self.step_ns = 0
+        self.clock_calls = 0
 
     def disarm(self):
         self.kind, self.k = None, None
+        self.step_ns = 0
 
     def _observe(self, dl):
         self.obs += 1
@@ -91,12 +99,20 @@ class _Injector:
 
     def install(self):
         import z3
+        import inference.inference as infmod
         from inference.deadline import Deadline
 
         assert self._orig is None
-        self._orig = (Deadline.expired, Deadline.remaining_ms, Deadline.remaining_seconds, z3.Optimize.check)
+        self._orig = (Deadline.expired, Deadline.remaining_ms, Deadline.remaining_seconds, z3.Optimize.check, infmod.perf_counter_ns)
         inj = self
         orig_check = z3.Optimize.check
+        orig_clock = infmod.perf_counter_ns
+
+        def clock():
+            if inj.step_ns:
+                inj.clock_calls += 1
+                inj.fired += 1
+            return orig_clock() + inj.clock_calls * inj.step_ns
 
         def real(dl):
             return max(0.0, dl.end - perf_counter())
@@ -121,14 +137,16 @@ class _Injector:
         Deadline.remaining_ms = remaining_ms
         Deadline.remaining_seconds = remaining_seconds
         z3.Optimize.check = check
+        infmod.perf_counter_ns = clock
 
     def uninstall(self):
         import z3
+        import inference.inference as infmod
         from inference.deadline import Deadline
 
         if self._orig is None:
             return
-        Deadline.expired, Deadline.remaining_ms, Deadline.remaining_seconds, z3.Optimize.check = self._orig
+        Deadline.expired, Deadline.remaining_ms, Deadline.remaining_seconds, z3.Optimize.check, infmod.perf_counter_ns = self._orig
         self._orig = None
 
 
@@ -266,6 +284,8 @@ def _one_fault(inj, sig, cond_texts, system, pm, weakly, queries, budgets, kind,
     """fresh manager; call under the fault; then a fault-free call without budgets on the same manager"""
     m = _manager(sig, cond_texts, system, pm, weakly)
     inj.reset(kind, k)
+    if kind == "clock":
+        inj.step_ns = int((budgets["total_timeout"] + CLOCK_DELTAS[k - 1]) * 1e9)
     rows1, exc1 = _call(m, queries, budgets, multi)
     fired = inj.fired
     inj.disarm()
@@ -358,6 +378,8 @@ def _unit(args):
         out["extra"]["checks"] = n_checks
         for kind in kinds:
             n = n_checks if kind == "check" else n_obs
+            if kind == "clock":
+                n = len(CLOCK_DELTAS) if budgets.get("total_timeout") else 0
             for k in _sample_ks(n, cap, rng):
                 found, flagged, fired = _one_fault(inj, sig, cond_texts, system, pm, weakly, queries, budgets, kind, k, multi, ref)
                 out["evaluations"] += 2
@@ -416,23 +438,28 @@ def run(tier, seed):
                 for bname in dict.fromkeys(chosen):
                     units.append((sig, ctexts, system, pm, weakly, queries, bname, KINDS, cap, rng.randrange(10**9), False))
                 if multi_some and not passive:
-                    units.append((sig, ctexts, system, pm, weakly, queries, "total+inf", ("deadline", "check"), cap, rng.randrange(10**9), True))
+                    units.append((sig, ctexts, system, pm, weakly, queries, "total+inf", ("deadline", "check", "clock"), cap, rng.randrange(10**9), True))
 
     add(BIRDS_SIG, dict(BIRDS), BIRDS_QUERIES, len(names) if thorough else 4, True)
     skipped = 0
     got = 0
-    while got < n_bases and skipped < 50 * n_bases:
+    weak_only = 0
+    while got < n_bases and skipped < 200 * n_bases:
         sig, conds = s3_base(rng, consts=0.06)
-        if consistency(BeliefBase(list(sig), dict(conds), "c14"), "z3", True)[0] is False:
-            skipped += 1
-            continue
+        bb = BeliefBase(list(sig), dict(conds), "c14")
+        # bases every mode refuses are skipped; bases only the extended mode accepts make up at most a third
+        if consistency(bb, "z3", False)[0] is False:
+            if consistency(bb, "z3", True)[0] is False or weak_only >= n_bases // 3:
+                skipped += 1
+                continue
+            weak_only += 1
         got += 1
         add(sig, texts_of(conds), _queries_for(rng, sig, conds), per_cfg, thorough and got % 10 == 0)
     order = list(range(len(units)))
     random.Random(seed + 1).shuffle(order)
     results = pmap(_unit, [units[i] for i in order])
     res = merge(results)
-    extra = {"units": len(units), "bases_skipped_as_inconsistent": skipped}
+    extra = {"units": len(units), "bases_skipped": skipped, "bases_accepted_in_extended_mode_only": weak_only}
     for r in results:
         for k, v in r.get("extra", {}).items():
             extra[k] = extra.get(k, 0) + v
